@@ -6,6 +6,7 @@ import (
 	"bytes"
 	"crypto/rsa"
 	"crypto/sha256"
+	"encoding/base64"
 	"encoding/binary"
 	"fmt"
 	"io"
@@ -259,6 +260,38 @@ func NewSP(o SPOpt) *saml.ServiceProvider {
 		sp.IDPCertificate = &c
 	case "fingerprint":
 		fp := Fingerprint(samlgen.Key("idp1"))
+		alg := "http://www.w3.org/2001/04/xmlenc#sha256"
+		sp.IDPCertificateFingerprint = &fp
+		sp.IDPCertificateFingerprintAlgorithm = &alg
+	}
+	if v, ok := strings.CutPrefix(o.Trust, "fingerprint-spelt:"); ok {
+		// fingerprint trust whose configured value is idp1's fingerprint written some other way (or not a fingerprint at all)
+		fp := Fingerprint(samlgen.Key("idp1"))
+		raw := sha256.Sum256(samlgen.Key("idp1").Cert.Raw)
+		switch v {
+		case "openssl-line":
+			fp = "SHA256 Fingerprint=" + fp
+		case "algorithm-prefix":
+			fp = "SHA256:" + fp
+		case "0x-prefix":
+			fp = "0x" + strings.ReplaceAll(fp, ":", "")
+		case "base64":
+			fp = base64.StdEncoding.EncodeToString(raw[:])
+		case "empty":
+			fp = ""
+		case "first-8-octets":
+			fp = fp[:23]
+		case "not-hex":
+			fp = "zz:zz"
+		case "lower-case":
+			fp = strings.ToLower(fp)
+		case "no-colons":
+			fp = strings.ReplaceAll(fp, ":", "")
+		case "blank-padded":
+			fp = " " + fp + "\n"
+		case "one-colon":
+			fp = ":"
+		}
 		alg := "http://www.w3.org/2001/04/xmlenc#sha256"
 		sp.IDPCertificateFingerprint = &fp
 		sp.IDPCertificateFingerprintAlgorithm = &alg
